@@ -185,8 +185,8 @@ class CDSInterval(AbstractFeatureInterval):
              A dictionary representation that can be passed to :meth:`CDSInterval.from_dict()`
         """
         if chromosome_relative_coordinates:
-            cds_starts = self._genomic_starts
-            cds_ends = self._genomic_ends
+            cds_starts = list(self._genomic_starts)
+            cds_ends = list(self._genomic_ends)
             cds_frames = [f.name for f in self.frames]
         else:
             cds_starts, cds_ends = list(zip(*([x.start, x.end] for x in self.chunk_relative_blocks)))
